@@ -86,3 +86,18 @@ Theorem C01p_passes_nonvacuous :
   static_arity nv_rest = true /\ run nv_rest = "OK (2 . (3 . ())) OUT 7" /\
   plain_let all_on nv_rest <> nv_rest /\ run (plain_let all_on nv_rest) = "OK (2 . (3 . ())) OUT 7".
 Proof. exact passes_nonvacuous. Qed.
+
+(* the constant evaluator: no soundness theorem (model tied to the source by the AST correspondence only);
+   the three pre-fix variants are refuted *)
+Theorem C01p_ceval_unsound_without_rest_guard :
+  exists e, run e = "OK () OUT " /\ run (ceval off_rest_used e) = "ERR OUT " /\ run (ceval all_on e) = "OK () OUT ".
+Proof. exact ceval_unsound_without_rest_guard. Qed.
+
+Theorem C01p_ceval_unsound_if_body_returned :
+  exists e, run e = "OK (1 . (2 . ())) OUT 1" /\ run (ceval off_emits_value e) = "ERR OUT 1" /\
+            run (ceval all_on e) = "OK (1 . (2 . ())) OUT 1".
+Proof. exact ceval_unsound_if_body_returned. Qed.
+
+Theorem C01p_ceval_unsound_without_surplus_check :
+  exists e, run e = "OK 1 OUT 7" /\ run (ceval off_surplus e) = "OK 1 OUT " /\ run (ceval all_on e) = "OK 1 OUT 7".
+Proof. exact ceval_unsound_without_surplus_check. Qed.
